@@ -44,9 +44,11 @@ static VectorNd project(Ctx &C, const VectorNd &q, const VectorNd &qd) {
 }
 
 bool run_curves(Ctx &C, const std::string &cmd, Toks &T, long seq);
+bool run_bal(Ctx &C, const std::string &cmd, Toks &T, long seq);
 bool run_ext(Ctx &C, const std::string &cmd, Toks &T, long seq) {
   Model &m = *C.model;
   if (run_curves(C, cmd, T, seq)) return true;
+  if (run_bal(C, cmd, T, seq)) return true;
   if (cmd == "luamode") { g_luamode = true; return true; }
   if (cmd == "luadecoy") {   // another description loaded earlier in the same process
     std::string path = T.str(); Model tmp;
